@@ -54,8 +54,8 @@ Print Assumptions C05_skip_warnings.
 
 (* Whole documents: headings at document level interleaved with arbitrary other blocks, containers with
    headings at any depth, directive bodies, and {include}s with any heading-offset (nested includes too).
-   With hl = the document-level headings (heading number, effective level = tag + offset of the innermost
-   include) in source order: the sections are exactly one per such heading, in source order, each under
+   With hl = the document-level headings (heading number, effective level = tag + the sum of the offsets of
+   the enclosing includes) in source order: the sections are exactly one per such heading, in source order, each under
    the section of the heading that the specification names for the level sequence (or the document); the
    warnings are exactly one per upward skip of more than one level.  Headings below containers do not
    appear here at all (they are rubrics, C05_nested_headings_are_rubrics_partial). *)
@@ -93,13 +93,27 @@ Proof.
 Qed.
 Print Assumptions C05_nested_headings_are_rubrics_refuted.
 
+(* The open finding characterised: a match_titles directive ([TDirective true]) in any state - e.g. below a
+   block quote - with the level map left by the document-level headings hl: the heading in its body opens a
+   section attached to the node the specification names for a document-level heading of that level at that
+   point (closest still-open heading of lower level among hl, else the document), not to the directive's
+   node; level map, current node, offset and temp root are restored. *)
+Theorem C05_titled_directive_attaches : forall hl s tag,
+  InvG hl (lvl s) -> Forall (fun x => 1 <= snd x) hl -> 1 <= tag ->
+  exists s' p, render (TDirective true [THeading tag]) s = Ok s' /\
+    ParentSpec (levels hl ++ [tag + hoff s]) (length hl) p /\
+    secs (log s') = secs (log s) ++ [(pref_ids (hl ++ [(nh s, tag + hoff s)]) p, nh s)] /\
+    lvl s' = lvl s /\ cur s' = cur s /\ hoff s' = hoff s /\ troot s' = troot s.
+Proof. exact titled_directive_attaches. Qed.
+Print Assumptions C05_titled_directive_attaches.
+
 (* the same for the body of a directive such as an admonition (nested_parse without match_titles) *)
 Theorem C05_directive_headings_are_rubrics : forall ts s, troot_fresh s -> forallb no_titles ts = true ->
   exists s', render (TDirective false ts) s = Ok s' /\
     lvl s' = lvl s /\ cur s' = cur s /\ hoff s' = hoff s /\ troot s' = troot s /\
     secs (log s') = secs (log s) /\ warns (log s') = warns (log s) /\
-    rubs (log s') = rubs (log s) ++ number (nh s) (flat_map (heading_levels 0) ts) /\
-    nh s' = nh s + length (flat_map (heading_levels 0) ts).
+    rubs (log s') = rubs (log s) ++ number (nh s) (flat_map (heading_levels (hoff s)) ts) /\
+    nh s' = nh s + length (flat_map (heading_levels (hoff s)) ts).
 Proof. exact directive_headings_are_rubrics. Qed.
 Print Assumptions C05_directive_headings_are_rubrics.
 
@@ -140,9 +154,9 @@ Proof. vm_compute. repeat split. Qed.
 
 Example C05_example_document :
   let ts := [THeading 1; TContainer [THeading 1]; TInclude 2 [THeading 1; TPara; THeading 2; TInclude 1 [THeading 1]]; THeading 2] in
-  doc_headings_list 0 0 ts = [(0, 1); (2, 3); (3, 4); (4, 2); (5, 2)] /\
+  doc_headings_list 0 0 ts = [(0, 1); (2, 3); (3, 4); (4, 4); (5, 2)] /\
   match render_document ts with
-  | Ok s => secs (log s) = [(Doc, 0); (Sec 0, 2); (Sec 2, 3); (Sec 0, 4); (Sec 0, 5)] /\ warns (log s) = [(2, 1, 3)]
+  | Ok s => secs (log s) = [(Doc, 0); (Sec 0, 2); (Sec 2, 3); (Sec 2, 4); (Sec 0, 5)] /\ warns (log s) = [(2, 1, 3)]
   | Raise _ => False
   end.
 Proof. vm_compute. repeat split. Qed.
